@@ -142,7 +142,7 @@ def evaluate(e, dtype):
         y5ref = torch.tensordot(X.to(torch.float64), Wd, dims=(list(range(nb, nb + d)), list(range(d, 2 * d)))) + ttgen.to_torch(e.args[1].arr, torch.float64)
         if y5.dtype != dtype: fails.append("forward() of a layer converted to %s returns %s" % (dtype, y5.dtype))
         tol5 = 1e-12 if dtype == torch.float64 else 1e-5
-        if float((y5.to(torch.float64) - y5ref).abs().max()) > tol5 * (1.0 + float(y5ref.abs().max())):
+        if not (float((y5.to(torch.float64) - y5ref).abs().max()) <= tol5 * (1.0 + float(y5ref.abs().max()))):
             fails.append("forward() of a layer converted after construction is not accurate in its current dtype (stale dtype inside forward?)")
         # ONE layer object through a sequence of calls: inputs with different numbers of batch dimensions (the same extent as the first mode included),
         # a forward without autograd, an in-place update of the parameters (what an optimiser step or load_state_dict does), the same forward again
@@ -159,7 +159,7 @@ def evaluate(e, dtype):
         for nb7 in (0, 1, 2, 1, 3, 0):
             Xq = torch.randint(-2, 3, [si[0]] * nb7 + list(si), generator=gen7).to(dtype)        # batch extents equal to the first mode: a wrong axis contracts silently
             yq = L7.forward(Xq)
-            if list(yq.shape) != [si[0]] * nb7 + list(so) or float((yq.to(torch.float64) - ref7(Xq)).abs().max()) > tol7 * (1.0 + float(ref7(Xq).abs().max())):
+            if list(yq.shape) != [si[0]] * nb7 + list(so) or not (float((yq.to(torch.float64) - ref7(Xq)).abs().max()) <= tol7 * (1.0 + float(ref7(Xq).abs().max()))):
                 fails.append("forward() of the same layer on an input with %d batch dimensions (after calls with other batch shapes) differs from the dense operator" % nb7); break
         Xq = torch.randint(-2, 3, [2] + list(si), generator=gen7).to(dtype)
         with torch.no_grad():
@@ -167,7 +167,7 @@ def evaluate(e, dtype):
             L7.cores[0].mul_(2.0)
             y_b = L7.forward(Xq)
         for nm7, yq, sc7 in (("before", y_a, 1.0), ("after", y_b, 2.0)):
-            if float((yq.to(torch.float64) - ref7(Xq, sc7)).abs().max()) > tol7 * (1.0 + float(ref7(Xq, sc7).abs().max())):
+            if not (float((yq.to(torch.float64) - ref7(Xq, sc7)).abs().max()) <= tol7 * (1.0 + float(ref7(Xq, sc7).abs().max()))):
                 fails.append("forward() without autograd %s an in-place update of a core differs from the dense operator of the current cores" % nm7)
     except Exception as ex:
         fails.append("layer construction / gradient check raised %s: %s" % (type(ex).__name__, str(ex)[:100]))
